@@ -632,7 +632,8 @@ def _check_obj(ctx, obj, ns, comps, s, lit, depth=0, via_union=False):
         if attr == "additional_properties":
             v = getattr(obj, attr, {})
             if not conforms(v, hint, ns):
-                ctx.violation("truthful.attribute", {"where": "additional_properties", "class_is": type(obj).__name__ == "ZzNarrow" and "narrowing_child" or "other"},
+                ctx.violation("truthful.attribute", {"where": "additional_properties", "class_is": type(obj).__name__ == "ZzNarrow" and "narrowing_child" or "other",
+                                                     **({"object_chosen_among_union_members": True} if via_union else {})},
                               f"{type(obj).__name__}.additional_properties = {v!r} vs {hint!r}"[:300])
             continue
         if not hasattr(obj, attr):
